@@ -49,6 +49,11 @@ CHECKS = {
    text="Every sequence up to the depth bound (fixpoint for 2 subjects) of open(subject, authority in {0,1,255}, time range joining or creating one of two regions, optional error-on-unauthorized) / set-authority / release on the real control.Controller in exclusive and shared mode: after every step Authorize() of every live gate, LeadingState, the returned Transfer (exactly one iff the holder or its authority changed, naming previous and next holder) and the fold of all reported transfers must agree with the model holder (highest authority, ties to the earliest open). At engine level the same scripts through cesium writers on one channel group: the authorised flag of every Write and the subsequent Read must agree with the model (unauthorised writes have no effect).",
    note="sequential histories (the concurrent interleavings of these calls are explored by the schedx part once enabled; until then stated as not covered); opens that would bridge two regions are outside the alphabet; go1.26.8 toolchain.",
    design="3/C05"),
+ "C12": dict(level="model_checking", engine="seqx",
+   technique="explicit-state BFS over real store.Store + gossip.Gossip instances on an in-memory network; monotonicity invariant on every event, exhaustive closing round (all pair orders x initiator choices) from every reached state",
+   text="Every sequence up to the depth bound of heartbeat ticks, pairwise exchanges (GossipOnceWith towards members the initiator knows), host state changes and restarts (Heartbeat.Restart) over 2-3 (thorough: 4) nodes starting from full, chain and star knowledge. After every event no observer's record of any member regresses, no record changes without a newer heartbeat, and every held (member, heartbeat) record equals what its host wrote (new generation supersedes the old). In every distinct reached state the closing round - every node ticks once, then every pair exchanges once - is executed in every pair order and initiator choice (3 nodes: 48 variants) and must leave all views identical and complete.",
+   note="synchronous in-memory freighter mock transport; restart modelled as Heartbeat.Restart() of the host record (what cluster.Open does) - persistence of the generation across a crash (cluster.Open + kv flush) is not exercised; pairs that cannot exchange because neither side knows the other make no convergence claim.",
+   design="3/C12"),
 }
 NOT_YET = {}
 props = [json.loads(l) for l in open(os.path.join(HERE, "properties.jsonl"))]
